@@ -14,6 +14,9 @@ pub trait HasShape {
     /// (NonZero = 0, capacity overflow, Duration overflow): such rejections are the type's
     /// refinement, not postcard's verdict.
     const REFINED: bool = false;
+    /// true when decoding loses order / duplicates (maps and sets): decoded values are then
+    /// compared by accept/reject and consumed length only.
+    const UNORDERED: bool = false;
 }
 
 macro_rules! prim_shape {
@@ -37,54 +40,63 @@ refined_shape! {
 }
 impl<T: HasShape> HasShape for Option<T> {
     const REFINED: bool = T::REFINED;
+    const UNORDERED: bool = T::UNORDERED;
     fn shape() -> Shape {
         Shape::Option(Box::new(T::shape()))
     }
 }
 impl<T: HasShape> HasShape for Vec<T> {
     const REFINED: bool = T::REFINED;
+    const UNORDERED: bool = T::UNORDERED;
     fn shape() -> Shape {
         Shape::Seq(Box::new(T::shape()))
     }
 }
 impl<T: HasShape> HasShape for VecDeque<T> {
     const REFINED: bool = T::REFINED;
+    const UNORDERED: bool = T::UNORDERED;
     fn shape() -> Shape {
         Shape::Seq(Box::new(T::shape()))
     }
 }
 impl<T: HasShape> HasShape for BTreeSet<T> {
     const REFINED: bool = T::REFINED;
+    const UNORDERED: bool = true;
     fn shape() -> Shape {
         Shape::Seq(Box::new(T::shape()))
     }
 }
 impl<T: HasShape> HasShape for HashSet<T> {
     const REFINED: bool = T::REFINED;
+    const UNORDERED: bool = true;
     fn shape() -> Shape {
         Shape::Seq(Box::new(T::shape()))
     }
 }
 impl<T: HasShape> HasShape for Box<[T]> {
     const REFINED: bool = T::REFINED;
+    const UNORDERED: bool = T::UNORDERED;
     fn shape() -> Shape {
         Shape::Seq(Box::new(T::shape()))
     }
 }
 impl<T: HasShape> HasShape for Box<T> {
     const REFINED: bool = T::REFINED;
+    const UNORDERED: bool = T::UNORDERED;
     fn shape() -> Shape {
         T::shape()
     }
 }
 impl<T: HasShape> HasShape for std::rc::Rc<T> {
     const REFINED: bool = T::REFINED;
+    const UNORDERED: bool = T::UNORDERED;
     fn shape() -> Shape {
         T::shape()
     }
 }
 impl<T: HasShape> HasShape for std::sync::Arc<T> {
     const REFINED: bool = T::REFINED;
+    const UNORDERED: bool = T::UNORDERED;
     fn shape() -> Shape {
         T::shape()
     }
@@ -101,36 +113,42 @@ impl HasShape for std::borrow::Cow<'static, str> {
 }
 impl<K: HasShape, V: HasShape> HasShape for BTreeMap<K, V> {
     const REFINED: bool = K::REFINED || V::REFINED;
+    const UNORDERED: bool = true;
     fn shape() -> Shape {
         Shape::Map(Box::new(K::shape()), Box::new(V::shape()))
     }
 }
 impl<K: HasShape, V: HasShape> HasShape for HashMap<K, V> {
     const REFINED: bool = K::REFINED || V::REFINED;
+    const UNORDERED: bool = true;
     fn shape() -> Shape {
         Shape::Map(Box::new(K::shape()), Box::new(V::shape()))
     }
 }
 impl<T: HasShape, const N: usize> HasShape for [T; N] {
     const REFINED: bool = T::REFINED;
+    const UNORDERED: bool = T::UNORDERED;
     fn shape() -> Shape {
         Shape::Tuple((0..N).map(|_| T::shape()).collect())
     }
 }
 impl<T: HasShape, const N: usize> HasShape for heapless::Vec<T, N> {
     const REFINED: bool = true;
+    const UNORDERED: bool = false;
     fn shape() -> Shape {
         Shape::Seq(Box::new(T::shape()))
     }
 }
 impl<const N: usize> HasShape for heapless::String<N> {
     const REFINED: bool = true;
+    const UNORDERED: bool = false;
     fn shape() -> Shape {
         Shape::Str
     }
 }
 impl<T: HasShape, E: HasShape> HasShape for Result<T, E> {
     const REFINED: bool = T::REFINED || E::REFINED;
+    const UNORDERED: bool = T::UNORDERED || E::UNORDERED;
     fn shape() -> Shape {
         Shape::Enum(
             "Result",
@@ -143,30 +161,35 @@ impl<T: HasShape, E: HasShape> HasShape for Result<T, E> {
 }
 impl<T: HasShape> HasShape for std::ops::Range<T> {
     const REFINED: bool = T::REFINED;
+    const UNORDERED: bool = T::UNORDERED;
     fn shape() -> Shape {
         Shape::Struct("Range", vec![("start", T::shape()), ("end", T::shape())])
     }
 }
 impl<T: HasShape> HasShape for std::ops::RangeInclusive<T> {
     const REFINED: bool = T::REFINED;
+    const UNORDERED: bool = T::UNORDERED;
     fn shape() -> Shape {
         Shape::Struct("RangeInclusive", vec![("start", T::shape()), ("end", T::shape())])
     }
 }
 impl<T: HasShape> HasShape for std::ops::RangeFrom<T> {
     const REFINED: bool = T::REFINED;
+    const UNORDERED: bool = T::UNORDERED;
     fn shape() -> Shape {
         Shape::Struct("RangeFrom", vec![("start", T::shape())])
     }
 }
 impl<T: HasShape> HasShape for std::ops::RangeTo<T> {
     const REFINED: bool = T::REFINED;
+    const UNORDERED: bool = T::UNORDERED;
     fn shape() -> Shape {
         Shape::Struct("RangeTo", vec![("end", T::shape())])
     }
 }
 impl HasShape for std::time::Duration {
     const REFINED: bool = true;
+    const UNORDERED: bool = false;
     fn shape() -> Shape {
         Shape::Struct("Duration", vec![("secs", Shape::U64), ("nanos", Shape::U32)])
     }
@@ -178,6 +201,7 @@ impl<T> HasShape for std::marker::PhantomData<T> {
 }
 impl<T: HasShape> HasShape for std::num::Wrapping<T> {
     const REFINED: bool = T::REFINED;
+    const UNORDERED: bool = T::UNORDERED;
     fn shape() -> Shape {
         T::shape()
     }
@@ -187,6 +211,7 @@ macro_rules! tuple_shape {
         impl<$($n: HasShape),+> HasShape for ($($n,)+) {
             fn shape() -> Shape { Shape::Tuple(vec![$($n::shape()),+]) }
             const REFINED: bool = false $(|| $n::REFINED)+;
+            const UNORDERED: bool = false $(|| $n::UNORDERED)+;
         }
     )* };
 }
@@ -214,6 +239,7 @@ macro_rules! corpus_types {
                 $crate::model::Shape::Struct(stringify!($name), vec![$((stringify!($f), <$t as $crate::corpus::HasShape>::shape())),*])
             }
             const REFINED: bool = false $(|| <$t as $crate::corpus::HasShape>::REFINED)*;
+            const UNORDERED: bool = false $(|| <$t as $crate::corpus::HasShape>::UNORDERED)*;
         }
         $crate::corpus_types!($($rest)*);
     };
@@ -230,6 +256,7 @@ macro_rules! corpus_types {
                 }
             }
             const REFINED: bool = false $(|| <$t as $crate::corpus::HasShape>::REFINED)*;
+            const UNORDERED: bool = false $(|| <$t as $crate::corpus::HasShape>::UNORDERED)*;
         }
         $crate::corpus_types!($($rest)*);
     };
@@ -265,6 +292,7 @@ macro_rules! corpus_types {
                 $crate::model::Shape::Enum(stringify!($name), vs)
             }
             const REFINED: bool = false $( $( $(|| <$vt as $crate::corpus::HasShape>::REFINED)* )? $( $(|| <$vft as $crate::corpus::HasShape>::REFINED)* )? )*;
+            const UNORDERED: bool = false $( $( $(|| <$vt as $crate::corpus::HasShape>::UNORDERED)* )? $( $(|| <$vft as $crate::corpus::HasShape>::UNORDERED)* )? )*;
         }
         $crate::corpus_types!($($rest)*);
     };
